@@ -118,6 +118,32 @@ func condCalls(info *types.Info, cond ast.Expr, pred func(*types.Func) bool) (fo
 	return
 }
 
+// stripConjunct removes conjuncts of the form `!call` (call satisfying pred) from a && chain.
+// Used for `!ctx.IsGet() && ctx.IsHead()`: IsGet() and IsHead() compare the same method bytes
+// with different constants, so IsGet() implies !IsHead() and the conjunct carries no
+// information about a HEAD request.
+func stripConjunct(info *types.Info, cond ast.Expr, pred func(*types.Func) bool) ast.Expr {
+	be, ok := unparen(cond).(*ast.BinaryExpr)
+	if !ok || be.Op != token.LAND {
+		return cond
+	}
+	isNeg := func(e ast.Expr) bool {
+		u, ok := unparen(e).(*ast.UnaryExpr)
+		if !ok || u.Op != token.NOT {
+			return false
+		}
+		c, ok := unparen(u.X).(*ast.CallExpr)
+		return ok && pred(calleeOf(info, c))
+	}
+	if isNeg(be.X) {
+		return stripConjunct(info, be.Y, pred)
+	}
+	if isNeg(be.Y) {
+		return stripConjunct(info, be.X, pred)
+	}
+	return cond
+}
+
 // errNilCond recognises `err == nil` / `err != nil` on an error-typed variable; ok reports a
 // match and isNil the outcome of "variable is nil" when the condition evaluates to val.
 func errNilCond(info *types.Info, cond ast.Expr, val bool) (ok, isNil bool) {
@@ -365,7 +391,7 @@ func serveLoop(e *Env, prop string) {
 					running := pick(t, f) > 0
 					upd(c, func(s *srv) { s.runChk = true; s.notRun = s.notRun || !running })
 				}
-				if found, t, f := condCalls(info, cond, func(f *types.Func) bool { return esp.Is(f, pkgApp, "RequestContext", "IsHead") }); found && s.phase == "handled" {
+				if found, t, f := condCalls(info, stripConjunct(info, cond, func(f *types.Func) bool { return esp.Is(f, pkgApp, "RequestContext", "IsGet") }), func(f *types.Func) bool { return esp.Is(f, pkgApp, "RequestContext", "IsHead") }); found && s.phase == "handled" {
 					upd(c, func(s *srv) {
 						s.headChk = true
 						if pick(t, f) >= 0 { // true or unknown: the request may be HEAD on this edge
